@@ -2,7 +2,8 @@ import SdcModel.Basic.Io
 import SdcModel.XmlBinding
 open Sdc Sdc.XmlBinding
 
-/-! Model driver for C05 (`XmlBinding`). Every string is a token `h<hex of utf-8>`; `-` = absent.
+/-! Model driver for C05 (`XmlBinding`). Every string is a token `h<hex of utf-8>`; `-` = absent; element tags and
+attribute names are numbers (interned by the harness, 0 = xsi:type).
 
 schema:  `S h<name> <hasNT> <h<nodetype>|-> <n> (h<propname> <kind>)*n`     (classes in index order)
    kind = `attr h<n> h<conv> <opt> <vol>` | `attrList h<n> h<conv> <opt>`
@@ -42,13 +43,15 @@ def hex (s : String) : String :=
 
 def optHex (t : String) : Option (Option String) := if t == "-" then some none else (unhex t).map some
 
+def optNat (t : String) : Option (Option Nat) := if t == "-" then some none else t.toNat?.map some
+
 def bool? (t : String) : Option Bool := if t == "1" then some true else if t == "0" then some false else none
 
 mutual
 def pXml : Nat → Toks → Option (Xml × Toks)
   | 0, _ => none
   | f + 1, "x" :: tag :: na :: r => do
-    let tag ← unhex tag
+    let tag ← tag.toNat?
     let na ← na.toNat?
     let (as, r) ← pAttrs na r
     match r with
@@ -69,7 +72,7 @@ def pXmls : Nat → Nat → Toks → Option (List Xml × Toks)
 def pAttrs : Nat → Toks → Option (Attrs × Toks)
   | 0, r => some ([], r)
   | n + 1, k :: v :: r => do
-    let k ← unhex k
+    let k ← k.toNat?
     let v ← unhex v
     let (as, r) ← pAttrs n r
     pure ((k, v) :: as, r)
@@ -104,7 +107,7 @@ def pVals : Nat → Nat → Toks → Option (List Val × Toks)
     pure (v :: vs, r)
 end
 
-def insertSorted (p : String × String) : Attrs → Attrs
+def insertSorted (p : Nat × String) : Attrs → Attrs
   | [] => [p]
   | q :: r => if p.1 < q.1 then p :: q :: r else q :: insertSorted p r
 
@@ -114,8 +117,8 @@ mutual
 def dXml : Xml → String
   | .node t a ks tx =>
     let sa := sortAttrs a
-    "x " ++ hex t ++ " " ++ toString sa.length
-      ++ String.join (sa.map fun p => " " ++ hex p.1 ++ " " ++ hex p.2)
+    "x " ++ toString t ++ " " ++ toString sa.length
+      ++ String.join (sa.map fun p => " " ++ toString p.1 ++ " " ++ hex p.2)
       ++ " " ++ hex tx ++ " " ++ toString ks.length ++ dXmls ks
 def dXmls : List Xml → String
   | [] => ""
@@ -142,14 +145,14 @@ def pRaw : String → Option RawStyle
 
 def pKind (f : Nat) : Toks → Option (Kind × Toks)
   | "attr" :: n :: c :: o :: v :: r => do
-    pure (.attr (← unhex n) (← unhex c) (← bool? o) (← bool? v), r)
-  | "attrList" :: n :: c :: o :: r => do pure (.attrList (← unhex n) (← unhex c) (← bool? o), r)
+    pure (.attr (← n.toNat?) (← unhex c) (← bool? o) (← bool? v), r)
+  | "attrList" :: n :: c :: o :: r => do pure (.attrList (← n.toNat?) (← unhex c) (← bool? o), r)
   | "text" :: s :: c :: o :: m :: st :: d :: r => do
-    pure (.text (← optHex s) (← unhex c) (← bool? o) (← bool? m) (← pStyle st) (← optHex d), r)
-  | "textList" :: s :: c :: o :: r => do pure (.textList (← optHex s) (← unhex c) (← bool? o), r)
-  | "subTextList" :: n :: c :: r => do pure (.subTextList (← unhex n) (← unhex c), r)
+    pure (.text (← optNat s) (← unhex c) (← bool? o) (← bool? m) (← pStyle st) (← optHex d), r)
+  | "textList" :: s :: c :: o :: r => do pure (.textList (← optNat s) (← unhex c) (← bool? o), r)
+  | "subTextList" :: n :: c :: r => do pure (.subTextList (← n.toNat?) (← unhex c), r)
   | "sub" :: n :: c :: o :: ct :: sk :: d :: r => do
-    let n ← optHex n
+    let n ← optNat n
     let c ← c.toNat?
     let o ← bool? o
     let ct ← bool? ct
@@ -160,8 +163,8 @@ def pKind (f : Nat) : Toks → Option (Kind × Toks)
     | r => do
       let (v, r) ← pVal f r
       pure (.sub n c o ct sk d (some v), r)
-  | "subList" :: n :: c :: ct :: d :: r => do pure (.subList (← unhex n) (← c.toNat?) (← bool? ct) (← d.toNat?), r)
-  | "raw" :: s :: st :: o :: r => do pure (.raw (← optHex s) (← pRaw st) (← bool? o), r)
+  | "subList" :: n :: c :: ct :: d :: r => do pure (.subList (← n.toNat?) (← c.toNat?) (← bool? ct) (← d.toNat?), r)
+  | "raw" :: s :: st :: o :: r => do pure (.raw (← optNat s) (← pRaw st) (← bool? o), r)
   | _ => none
 
 def pPropEs (f : Nat) : Nat → Toks → Option (List PropE × Toks)
@@ -220,7 +223,7 @@ def stepLine (st : DSt) (line : String) : DSt × String :=
     | some p => ({ st with now := p }, "ok")
     | none => (st, "bad-op")
   | ["resetcodec"] => ({ st with cx := [], cp := [] }, "ok")
-  | "w" :: c :: tag :: r => match c.toNat?, unhex tag, pVal f r with
+  | "w" :: c :: tag :: r => match c.toNat?, tag.toNat?, pVal f r with
     | some c, some tag, some (.obj c' fs, []) =>
       if c' = c then match writeCls st.codec st.S f c fs tag with
         | some x => (st, "ok " ++ dXml x)
